@@ -1517,16 +1517,16 @@ Definition init_w (p : sprog) : walloc :=
             :: rev (argents (sp_args p) 0))
            [] (n + 2).
 
-Definition init_alloc (p : sprog) : walloc * N :=
+Definition init_alloc (p : sprog) : walloc * N * N :=
   let w1 := fold_left (fun w a => input_wires w (fst a) (snd a)) (sp_args p) walloc0 in
   let '(zw, w2) := assigned_wires w1 (sp_zero_key p) 1 in
   let zero := nth 0 zw 0%N in
   let '(ow, w3) := assigned_wires w2 (sp_one_key p) 1 in
   let one := nth 0 ow 0%N in
-  (define_constants w3 zero one (sp_consts p), zero).
+  (define_constants w3 zero one (sp_consts p), zero, one).
 
 Lemma stream_init_alloc p xy :
-  (ss_w (stream_init p xy), ss_zero (stream_init p xy)) = init_alloc p.
+  (ss_w (stream_init p xy), ss_zero (stream_init p xy)) = fst (init_alloc p).
 Proof.
   unfold stream_init, init_alloc.
   destruct (assigned_wires _ (sp_zero_key p) 1) as [zw w2].
@@ -1541,7 +1541,7 @@ Qed.
 
 Lemma init_alloc_eq p :
   NoDup (map fst (sp_args p) ++ const_keys p) ->
-  init_alloc p = (init_w p, total (sp_args p)).
+  init_alloc p = (init_w p, total (sp_args p), (total (sp_args p) + 1)%N).
 Proof.
   intros Hnd. unfold const_keys in Hnd.
   apply NoDup_app_iff in Hnd as (Ha & Hc & Hac).
@@ -1759,7 +1759,7 @@ Proof.
       rewrite (proj2 (mem_In _ _) Hk) in *. discriminate.
     - apply NoDup_app_iff in Hnd as (_ & _ & Hd). exact (Hd k Hin Hk). }
   unfold no_premature_reuse.
-  pose proof (stream_init_alloc p []) as Hi. rewrite (init_alloc_eq p Hnd) in Hi. injection Hi as Hw Hz.
+  pose proof (stream_init_alloc p []) as Hi. rewrite (init_alloc_eq p Hnd) in Hi. cbn [fst] in Hi. injection Hi as Hw Hz.
   rewrite Hw, Hz.
   pose proof (init_ginv p steps Hnd Hck) as G0. fold Kt NC n in G0.
   assert (Hone : nth 0 (ids_of (init_w p) (sp_one_key p)) 0%N = (n + 1)%N).
@@ -1884,3 +1884,306 @@ Section InitSim.
     destruct (cs_tmplen cs <? 2); destruct neg; cbn; destruct (sfind false (cs_wires cs) 0); reflexivity.
   Qed.
 End InitSim.
+
+
+Lemma vgarble_const st step (z : N) (neg : bool) :
+  let c := mkCircuit 2 1 1 [mkGate 0 0 1 (if neg then XNOR else XOR)] in
+  cs_wires (ss_cs (vgarble st step c [0%N] [z])) = sadd (cs_wires (ss_cs st)) z neg /\
+  ss_ret (vgarble st step c [0%N] [z]) = ss_ret st.
+Proof.
+  intros c. pose proof (gate_zero_one (ss_cs st) z neg) as H. fold c in H.
+  unfold vgarble. destruct (garble_circ_bits (ss_cs st) c [0%N] [z]) as [cs' sgs]. cbn [fst] in H.
+  split; [exact H | reflexivity].
+Qed.
+
+Definition wires0 (xy : list bool) (nin : nat) : PositiveMap.t bool :=
+  fold_left (fun (m : PositiveMap.t bool) (i : nat) => sadd m (N.of_nat i) (nth i xy false)) (seq 0 nin) (PositiveMap.empty bool).
+
+Lemma stream_init_store p xy :
+  let w1 := fold_left (fun w a => input_wires w (fst a) (snd a)) (sp_args p) walloc0 in
+  ss_ret (stream_init p xy) = [] /\
+  cs_wires (ss_cs (stream_init p xy))
+  = sadd (sadd (wires0 xy (N.to_nat (wnext w1))) (snd (fst (init_alloc p))) false) (snd (init_alloc p)) true.
+Proof.
+  intros w1. unfold stream_init, init_alloc. fold w1.
+  destruct (assigned_wires w1 (sp_zero_key p) 1) as [zw w2].
+  change zero_circ with (mkCircuit 2 1 1 [mkGate 0 0 1 (if false then XNOR else XOR)]).
+  change one_circ with (mkCircuit 2 1 1 [mkGate 0 0 1 (if true then XNOR else XOR)]).
+  match goal with |- context [vgarble ?st 0 ?c [0%N] [nth 0 zw 0%N]] =>
+    destruct (ss_w_vgarble st 0 c [0%N] [nth 0 zw 0%N]) as [V1 V2];
+    destruct (vgarble_const st 0 (nth 0 zw 0%N) false) as [V3 V4];
+    set (st1 := vgarble st 0 c [0%N] [nth 0 zw 0%N]) in * end.
+  cbn [ss_w ss_zero ss_ret ss_cs cs_wires] in V1, V2, V3, V4. rewrite V1.
+  destruct (assigned_wires w2 (sp_one_key p) 1) as [ow w3].
+  match goal with |- context [vgarble ?st 0 ?c [0%N] [nth 0 ow 0%N]] =>
+    destruct (vgarble_const st 0 (nth 0 ow 0%N) true) as [V5 V6];
+    set (st2 := vgarble st 0 c [0%N] [nth 0 ow 0%N]) in * end.
+  unfold with_w in *. cbn [ss_w ss_zero ss_ret ss_cs cs_wires fst snd] in *.
+  rewrite V6, V4, V5, V3. split; reflexivity.
+Qed.
+
+Lemma in_keys_lookup {A} k (l : list (N * A)) : In k (map fst l) -> exists a, lookup k l = Some a.
+Proof.
+  induction l as [|[k2 a2] t IH]; intros H; [destruct H|]. cbn [lookup].
+  destruct (N.eqb k k2) eqn:E; [eauto|]. apply N.eqb_neq in E. destruct H as [H|H]; [cbn in H; congruence | auto].
+Qed.
+
+Lemma nodup_keys_eq {A} (k : N) (a a' : A) (l : list (N * A)) : NoDup (map fst l) -> In (k, a) l -> In (k, a') l -> a = a'.
+Proof. intros Hnd H1 H2. apply (in_lookup _ _ _ Hnd) in H1. apply (in_lookup _ _ _ Hnd) in H2. congruence. Qed.
+
+Lemma concat_bits_length e l : length (concat (map (operand_bits e) l)) = sum_bits l.
+Proof.
+  induction l as [|i t IH]; [reflexivity|]. cbn [map concat]. rewrite app_length, IH.
+  unfold operand_bits. rewrite pad_operand_length. reflexivity.
+Qed.
+
+Lemma ssa_ret_length circs : forall steps e r e' r',
+  ssa_steps circs steps (e, r) = Some (e', r') -> length r' = length r + ret_bits steps.
+Proof.
+  induction steps as [|s rest IH]; intros e r e' r' H.
+  - cbn in H. injection H as _ <-. cbn. lia.
+  - cbn [ssa_steps] in H. destruct (ssa_step circs s (e, r)) as [[e1 r1]|] eqn:Es; [|discriminate].
+    apply IH in H. cbn [ret_bits fold_right]. fold (ret_bits rest).
+    assert (Hr1 : length r1 = length r + match iop s with ORet => sum_bits (iin s) | _ => 0 end).
+    { unfold ssa_step in Es.
+      destruct (iop s);
+        try (destruct (iout s); [|discriminate];
+             match type of Es with context [alias_ids ?A ?z ?o ?i ?c ?ol ?ob] => destruct (alias_ids A z o i c ol ob) end;
+             [injection Es as _ <-; lia | discriminate]).
+      - injection Es as _ <-. rewrite app_length, concat_bits_length. reflexivity.
+      - injection Es as _ <-. lia.
+      - injection Es as _ <-. lia.
+      - destruct (iout s); [|discriminate]. injection Es as _ <-. lia. }
+    destruct (iop s); lia.
+Qed.
+
+Lemma map_nth_seq_firstn {A B} (f : A -> B) (l : list A) d k :
+  k <= length l -> map (fun i => f (nth i l d)) (seq 0 k) = firstn k (map f l).
+Proof.
+  revert l. induction k as [|k IH]; intros l Hk; [reflexivity|].
+  destruct l as [|x t]; [simpl in Hk; lia|]. cbn [seq map firstn nth]. f_equal.
+  rewrite <- seq_shift, map_map. apply IH. simpl in Hk. lia.
+Qed.
+
+Lemma nth_firstn_lt2 {A} (l : list A) d : forall k m, k < m -> nth k (firstn m l) d = nth k l d.
+Proof.
+  induction l as [|h t IH]; intros k m H; [destruct m; destruct k; reflexivity|].
+  destruct m; [lia|]. destruct k; [reflexivity|]. simpl. apply IH. lia.
+Qed.
+
+Lemma nth_skipn2 {A} (l : list A) d : forall o i, nth i (skipn o l) d = nth (o + i) l d.
+Proof.
+  induction l as [|h t IH]; intros o i; [destruct o; destruct i; reflexivity|].
+  destruct o; [reflexivity|]. simpl. apply IH.
+Qed.
+
+Lemma init_sinv p steps xy :
+  let Kt := map fst (sp_consts p) in
+  let NC := outs_l steps ++ map fst (sp_args p) in
+  let n := total (sp_args p) in
+  NoDup (map fst (sp_args p) ++ const_keys p) ->
+  (forall k, In k (const_keys p) -> ~ In k NC) ->
+  SInv Kt (sp_zero_key p) (sp_one_key p) n (n + 1) NC steps (sp_args p)
+       (stream_init p xy) (ssa_init p xy) [] steps (map fst (sp_args p)) [] /\
+  ss_ret (stream_init p xy) = [].
+Proof.
+  intros Kt NC n Hnd Hck.
+  pose proof (init_ginv p steps Hnd Hck) as G0. fold Kt NC n in G0.
+  pose proof (stream_init_alloc p xy) as Hi. rewrite (init_alloc_eq p Hnd) in Hi. cbn [fst] in Hi. injection Hi as Hw Hz.
+  destruct (stream_init_store p xy) as [Hret Hcs]. rewrite (init_alloc_eq p Hnd) in Hcs. cbn [fst snd] in Hcs.
+  fold n in Hz, Hcs.
+  pose proof Hnd as Hnd0. unfold const_keys in Hnd0. apply NoDup_app_iff in Hnd0 as (Ha & Hc & Hac).
+  inversion Hc as [|? ? Hz0 Hc1]; subst. inversion Hc1 as [|? ? Ho0 Hc2]; subst.
+  assert (Hwn : wnext (fold_left (fun w a => input_wires w (fst a) (snd a)) (sp_args p) walloc0) = n).
+  { rewrite (input_fold (sp_args p) walloc0 Ha) by (intros k _; reflexivity). cbn. reflexivity. }
+  rewrite Hwn in Hcs.
+  (* reading the initial store *)
+  assert (Hrdz : rd (stream_init p xy) n = false).
+  { unfold rd. rewrite Hcs. rewrite sfind_sadd_neq by lia. apply sfind_sadd_eq. }
+  assert (Hrdo : rd (stream_init p xy) (n + 1)%N = true).
+  { unfold rd. rewrite Hcs. apply sfind_sadd_eq. }
+  assert (Hrdi : forall j, j < sumn (sp_args p) -> rd (stream_init p xy) (N.of_nat j) = nth j xy false).
+  { intros j Hj. unfold rd. rewrite Hcs. pose proof (total_sumn (sp_args p)) as Ht. fold n in Ht.
+    rewrite !sfind_sadd_neq by lia. unfold wires0. rewrite init_store_find.
+    replace (existsb (fun i => N.eqb (N.of_nat i) (N.of_nat j)) (seq 0 (N.to_nat n))) with true.
+    - rewrite Nat2N.id. reflexivity.
+    - symmetry. apply existsb_exists. exists j. split; [apply in_seq; lia | apply N.eqb_refl]. }
+  (* the reference environment *)
+  set (argb := map (fun q : N * nat * nat => (fst (fst q), firstn (snd (fst q)) (skipn (snd q) xy ++ repeat false (snd (fst q)))))
+                   (argpos (sp_args p) 0)).
+  assert (He : ssa_init p xy = rev (sp_consts p) ++ rev argb).
+  { pose proof (ssa_args_fold xy (sp_args p) [] 0) as Hf. unfold ssa_init. unfold env in *. cbv beta in *.
+    rewrite Hf. rewrite app_nil_r. fold argb.
+    apply ssa_consts_fold; [exact Hc2|]. intros k Hk.
+    destruct (lookup k (rev argb)) eqn:L; [|reflexivity]. exfalso. apply lookup_in, in_rev in L.
+    unfold argb in L. apply in_map_iff in L as (q & Eq & Hq). injection Eq as Ek _.
+    apply (Hac k); [|right; right; exact Hk].
+    rewrite <- (argpos_keys (sp_args p) 0). apply in_map_iff. exists q. auto. }
+  assert (Hkeys_e : forall k, In k (map fst (sp_args p)) \/ In k Kt -> exists b, lookup k (ssa_init p xy) = Some b).
+  { intros k Hk. apply in_keys_lookup. rewrite He, map_app, !map_rev. apply in_or_app. destruct Hk as [Hk|Hk].
+    - right. rewrite <- in_rev. unfold argb. rewrite map_map. cbn [fst]. rewrite (argpos_keys (sp_args p) 0). exact Hk.
+    - left. rewrite <- in_rev. exact Hk. }
+  split; [|exact Hret].
+  split; [exact Hz|]. split; [rewrite Hw; exact G0|].
+  split; [intros k _; reflexivity|]. split; [intros u []|].
+  split; [|split; [|exact Hrdz]].
+  - (* Rel *)
+    intros v b Lb _. rewrite Hw. rewrite He in Lb. apply lookup_in in Lb. apply in_app_or in Lb as [Lb|Lb].
+    + (* a constant of the table *)
+      apply in_rev in Lb.
+      set (ids := map (fun x : bool => if x then (n + 1)%N else n) b).
+      assert (Lw : lookup v (whash (init_w p)) = Some (mkEntry (match ids with [] => None | b0 :: _ => Some b0 end) (Some ids) (Some ids))).
+      { apply in_lookup; [apply (g_keys _ _ _ _ _ _ _ _ _ _ _ G0)|]. unfold init_w. cbn [whash]. apply in_or_app. left.
+        rewrite <- in_rev. unfold constents. apply in_map_iff. exists (v, b). split; [reflexivity | exact Lb]. }
+      split; [unfold allocated; rewrite Lw; reflexivity|].
+      unfold ids_of. rewrite Lw. cbn [eids]. unfold ids. rewrite map_map.
+      rewrite <- (map_id b) at 2. apply map_ext. intros x. destruct x; [exact Hrdo | exact Hrdz].
+    + (* a program argument *)
+      apply in_rev in Lb. unfold argb in Lb. apply in_map_iff in Lb as ([[k n0] o] & Eq & Hq). cbn [fst snd] in Eq.
+      injection Eq as <- <-.
+      destruct (argpos_bound _ _ _ _ _ Hq) as (_ & Hb & _). cbn in Hb.
+      assert (Lw : lookup k (whash (init_w p)) = Some (mkEntry None (Some (block (N.of_nat o) n0)) None)).
+      { apply in_lookup; [apply (g_keys _ _ _ _ _ _ _ _ _ _ _ G0)|]. unfold init_w. cbn [whash]. apply in_or_app. right. right. right.
+        rewrite <- in_rev. change 0%N with (N.of_nat 0). rewrite argents_argpos. apply in_map_iff.
+        exists (k, n0, o). split; [reflexivity | exact Hq]. }
+      split; [unfold allocated; rewrite Lw; reflexivity|].
+      unfold ids_of. rewrite Lw. cbn [eids ewires].
+      apply (nth_ext _ _ false false).
+      * rewrite map_length, block_length, firstn_length, app_length, repeat_length. lia.
+      * intros i Hi. rewrite map_length, block_length in Hi.
+        rewrite (nth_indep _ false (rd (stream_init p xy) 0%N)) by (rewrite map_length, block_length; exact Hi).
+        rewrite map_nth. unfold block. rewrite (nth_indep _ 0%N ((fun i0 => (N.of_nat o + N.of_nat i0)%N) 0)) by (rewrite map_length, seq_length; exact Hi).
+        rewrite (map_nth (fun i0 => (N.of_nat o + N.of_nat i0)%N)), seq_nth by exact Hi. cbn [Nat.add].
+        replace (N.of_nat o + N.of_nat i)%N with (N.of_nat (o + i)) by lia.
+        rewrite Hrdi by lia.
+        rewrite nth_firstn_lt2 by exact Hi.
+        destruct (Nat.lt_ge_cases i (length (skipn o xy))) as [L|L].
+        -- rewrite app_nth1 by exact L. rewrite nth_skipn2. reflexivity.
+        -- rewrite app_nth2 by exact L. rewrite nth_repeat. rewrite skipn_length in L.
+           rewrite nth_overflow by lia. reflexivity.
+  - (* Bd *)
+    intros k Hk. apply Hkeys_e. destruct Hk as [Hk|Hk]; [left|auto].
+    unfold outs_l in Hk. cbn [flat_map app] in Hk. exact Hk.
+Qed.
+
+Lemma wf_ret_last : forall steps defd, wf_steps defd steps = true ->
+  forall E s later, steps = E ++ s :: later -> iop s = ORet -> later = [].
+Proof.
+  induction steps as [|s0 rest IH]; intros defd H E s later E0 Hr; [destruct E; discriminate|].
+  destruct rest as [|s2 rest'].
+  - destruct E as [|a E]; [injection E0 as _ <-; reflexivity | destruct E; discriminate].
+  - remember (s2 :: rest') as rest eqn:Er.
+    assert (Hc : iop s0 <> ORet /\ wf_steps (outs_of s0 ++ defd) rest = true).
+    { subst rest. cbn [wf_steps] in H. destruct (iop s0); try discriminate;
+        repeat (apply andb_prop in H as [H ?]); split; try assumption; discriminate. }
+    destruct Hc as [Hc Hw]. destruct E as [|a E].
+    + injection E0 as -> _. contradiction.
+    + injection E0 as _ E0. eapply IH; eauto.
+Qed.
+
+Lemma ret_bits_filter l : ret_bits (filter not_gc l) = ret_bits l.
+Proof.
+  induction l as [|s t IH]; [reflexivity|]. cbn [filter]. unfold not_gc at 1.
+  destruct (iop s) eqn:E; cbn [ret_bits fold_right]; rewrite ?E; fold (ret_bits t); fold (ret_bits (filter not_gc t)); rewrite ?IH; reflexivity.
+Qed.
+
+Theorem stream_eq_whole p steps g xy :
+  wf_prog p steps = true -> consts_tabled p steps = true -> outbits_ok p steps = true ->
+  gc_fixed steps = Some g ->
+  stream_eval p g xy = ssa_eval p steps xy.
+Proof.
+  intros Hwf Htab Hout Hg.
+  pose proof Hwf as Hwf0. unfold wf_prog in Hwf.
+  apply andb_prop in Hwf as [Hwf Hsteps]. apply andb_prop in Hwf as [Hssa Hnd].
+  apply nodupb_NoDup in Hnd.
+  set (Kt := map fst (sp_consts p)).
+  set (NC := outs_l steps ++ map fst (sp_args p)).
+  set (n := total (sp_args p)).
+  rewrite forallb_forall in Hsteps.
+  assert (Hck : forall k, In k (const_keys p) -> ~ In k NC).
+  { intros k Hk Hin. apply in_app_or in Hin as [Hin|Hin].
+    - unfold outs_l in Hin. apply in_flat_map in Hin as (s & Hs & Ho).
+      specialize (Hsteps s Hs). unfold step_ok in Hsteps.
+      repeat (apply andb_prop in Hsteps as [Hsteps ?]).
+      match goal with Hx : forallb (fun o => negb (mem o (const_keys p))) (outs_of s) = true |- _ =>
+        rewrite forallb_forall in Hx; specialize (Hx k Ho) end.
+      rewrite (proj2 (mem_In _ _) Hk) in *. discriminate.
+    - apply NoDup_app_iff in Hnd as (_ & _ & Hd). exact (Hd k Hin Hk). }
+  assert (Hsok : Forall (sok NC (sp_args p)) steps).
+  { pose proof (wf_shape _ _ Hssa) as Hsh. rewrite Forall_forall in *. intros s Hs.
+    specialize (Hsh s Hs). specialize (Hsteps s Hs). unfold step_ok in Hsteps.
+    repeat (apply andb_prop in Hsteps as [Hsteps ?]).
+    split.
+    - destruct (iop s); auto; discriminate.
+    - intros i Hi. split.
+      + intros Hc.
+        match goal with Hx : forallb (fun i => if vconst i then _ else _) (iin s) = true |- _ =>
+          rewrite forallb_forall in Hx; specialize (Hx i Hi); rewrite Hc in Hx end.
+        intros Hin. assert (Hm : mem (vid i) (map fst (sp_args p) ++ flat_map outs_of steps) = true).
+        { apply mem_In. apply in_app_or in Hin as [Hin|Hin]; apply in_or_app; auto. }
+        rewrite Hm in *. discriminate.
+      + intros b Hb.
+        match goal with Hx : forallb (fun i => match lookup (vid i) (sp_args p) with _ => _ end) (iin s) = true |- _ =>
+          rewrite forallb_forall in Hx; specialize (Hx i Hi); rewrite Hb in Hx end.
+        apply Nat.eqb_eq. assumption. }
+  assert (Hsok2 : Forall (sok2 Kt (sp_circs p)) steps).
+  { unfold consts_tabled in Htab. rewrite forallb_forall in Htab. rewrite Forall_forall. intros s Hs.
+    specialize (Htab s Hs). rewrite forallb_forall in Htab.
+    specialize (Hsteps s Hs). unfold step_ok in Hsteps.
+    repeat (apply andb_prop in Hsteps as [Hsteps ?]).
+    split; [|split].
+    - intros i Hi Hc. unfold vpos_ops in Hi. apply in_flat_map in Hi as (j & Hj & Hi).
+      specialize (Htab j Hj). destruct (nth_error (iin s) j) as [i'|]; [|destruct Hi].
+      destruct Hi as [<-|[]]. rewrite Hc in Htab. cbn in Htab. apply mem_In. exact Htab.
+    - intros Eop o Eout.
+      match goal with Hx : match iop s with OSlice => _ | _ => _ end = true |- _ => rewrite Eop, Eout in Hx;
+        apply andb_prop in Hx as [Hx Hx3]; apply andb_prop in Hx as [Hx1 Hx2] end.
+      repeat split; [apply Z.leb_le; assumption | apply Z.ltb_lt; assumption | apply Nat.eqb_eq; assumption].
+    - intros Eop o Eout.
+      match goal with Hx : match iop s with OGen => _ | _ => _ end = true |- _ => rewrite Eop, Eout in Hx;
+        apply andb_prop in Hx as [Hx Hx4]; apply andb_prop in Hx as [Hx Hx3]; apply andb_prop in Hx as [Hx1 Hx2] end.
+      cbv zeta. repeat split; [assumption | apply Nat.eqb_eq; assumption | apply Nat.eqb_eq; assumption | apply Nat.leb_le; assumption]. }
+  assert (HzK : ~ In (sp_zero_key p) Kt).
+  { unfold const_keys in Hnd. apply NoDup_app_iff in Hnd as (_ & Hc & _).
+    inversion Hc as [|? ? Hz0 Hc1]; subst. intros H; apply Hz0; right; exact H. }
+  assert (HzN : ~ In (sp_zero_key p) NC) by (apply Hck; left; reflexivity).
+  assert (HoN : ~ In (sp_one_key p) NC) by (apply Hck; right; left; reflexivity).
+  assert (HkN : forall k, In k Kt -> ~ In k NC) by (intros k Hk; apply Hck; right; right; exact Hk).
+  assert (Hwfl : wfl (map fst (sp_args p)) steps) by (apply wf_steps_wfl, Hssa).
+  assert (HNC : forall k, In k NC <-> In k (outs_l steps ++ map fst (sp_args p))) by (intros k; reflexivity).
+  assert (Hform : gcform steps steps g) by (eapply gc_fixed_form; eauto).
+  assert (Hrl : forall E s later, steps = E ++ s :: later -> iop s = ORet -> later = []) by (eapply wf_ret_last; eauto).
+  destruct (init_sinv p steps xy Hnd Hck) as [HI Hret0]. fold Kt NC n in HI.
+  pose proof (run_sim Kt (sp_zero_key p) (sp_one_key p) n (n + 1)%N NC steps (sp_args p) HzK HzN HoN HkN
+                (sp_circs p) Hwfl HNC Hsok Hsok2 Hrl steps g Hform [] (stream_init p xy) (ssa_init p xy) 0
+                (map fst (sp_args p)) [] eq_refl HI Hret0) as HS.
+  assert (Hng : forallb not_gc steps = true).
+  { apply forallb_forall. intros s Hs. pose proof (wf_not_gc _ _ Hssa) as Hn. rewrite Forall_forall in Hn.
+    specialize (Hn s Hs). unfold not_gc. destruct (iop s); auto; try (exfalso; apply Hn; reflexivity). }
+  rewrite <- (ssa_ignores_gc p true true steps g xy Hng Hg).
+  unfold stream_eval, stream_run, ssa_eval.
+  destruct (stream_steps (sp_circs p) 0 g (stream_init p xy)) as [stf|];
+    destruct (ssa_steps (sp_circs p) g (ssa_init p xy, [])) as [[ef retf]|] eqn:Ess; try contradiction; [|reflexivity].
+  cbn [simres] in HS. f_equal.
+  pose proof (ssa_ret_length _ _ _ _ _ _ Ess) as Hlen. cbn [length Nat.add] in Hlen.
+  rewrite <- (ret_bits_filter g), (gc_only_inserts true true steps g Hng Hg) in Hlen.
+  unfold outbits_ok in Hout. apply Nat.eqb_eq in Hout.
+  rewrite <- HS. rewrite <- HS, map_length in Hlen.
+  change (fun i => sfind false (cs_wires (ss_cs stf)) (nth i (ss_ret stf) 0%N))
+    with (fun i => rd stf (nth i (ss_ret stf) 0%N)).
+  apply map_nth_seq_firstn. lia.
+Qed.
+
+(* the simulation proper: on the gc'd list itself *)
+Theorem stream_sim_gc p steps g xy :
+  wf_prog p steps = true -> consts_tabled p steps = true -> outbits_ok p steps = true ->
+  gc_fixed steps = Some g ->
+  no_premature_reuse p g = true /\ stream_eval p g xy = ssa_eval p g xy.
+Proof.
+  intros Hwf Htab Hout Hg. split; [eapply gc_sound; eauto|].
+  rewrite (stream_eq_whole p steps g xy Hwf Htab Hout Hg). symmetry.
+  apply (ssa_ignores_gc p true true steps g xy); [|exact Hg].
+  unfold wf_prog in Hwf. apply andb_prop in Hwf as [Hwf _]. apply andb_prop in Hwf as [Hssa _].
+  apply forallb_forall. intros s Hs. pose proof (wf_not_gc _ _ Hssa) as Hn. rewrite Forall_forall in Hn.
+  specialize (Hn s Hs). unfold not_gc. destruct (iop s); auto; try (exfalso; apply Hn; reflexivity).
+Qed.
